@@ -254,7 +254,7 @@ class Script:
 
     def text(self, model=False):
         # GHOST lines are operations of the harness only (a bystander object created and destroyed at once)
-        lines = [l for l in self.lines if not l.startswith("GHOST ")] if model else self.lines
+        lines = [l for l in self.lines if not l.startswith(("GHOST ", "GHOST+ "))] if model else self.lines
         return "=== %s %s %s\n%s\n" % (self.id, self.engine, " ".join(self.args), "\n".join(lines))
 
 
